@@ -480,6 +480,14 @@ def run_impl(case):
 
         def __hash__(self):
             return 7
+
+    class ResFalsy(Res):
+        """a resource whose truth value is False (a register bank with nothing in it yet): still a resource"""
+        def __bool__(self):
+            return False
+
+        def __len__(self):
+            return 0
     at = Atoms()
     maps = []
     objs = {}
@@ -517,7 +525,7 @@ def run_impl(case):
             _, mi, rid, comp, name, size, addr, alg = op
             key = (rid, comp)
             if key not in objs:
-                objs[key] = (ResEq() if rid % 2 else Res()) if comp else object()
+                objs[key] = (ResEq() if rid % 2 else ResFalsy() if rid % 3 == 0 else Res()) if comp else object()
                 ids[id(objs[key])] = rid
             o = objs[key]
             out.append(call(lambda: maps[mi].add_resource(o, name=_pyname(name), size=_pyarg(size),
@@ -562,7 +570,9 @@ def run_impl(case):
                     dc.append([] if r is None else [ids[id(r)]])
                 fr = []
                 for rid in rids:
-                    o = objs.get((rid, 1)) or objs.get((rid, 0))
+                    o = objs.get((rid, 1))
+                    if o is None:
+                        o = objs.get((rid, 0))
                     if o is None:
                         o = objs.setdefault(("never", rid), object())
                     try:
